@@ -99,7 +99,7 @@ def expr_instances(tier, seed, mode, fam, ops=None, full=False, safety=False):
                               dict({'LT': l, 'RT': r, 'OPK': opk, 'WANT': result_type(opk, l, r), 'LCONV': operand_types(opk, l, r)[0],
                                     'RCONV': operand_types(opk, l, r)[1], mode: None}, **defs_extra),
                               units=['expr', 'eval', 'type', 'util'], overrides=['fatal', 'xmalloc', 'error'], native_units=NATIVE, unwind=4,
-                              unwindset=['il_run.0:24', 'il_is_stop.0:14'], family=fam + '.' + opn, backends=backends, safety=safety, optional=optional, witness=not (heavy and mode == 'ONLY_FOLD' and (optional or opk == 0)),
+                              unwindset=['il_run.0:24', 'il_is_stop.0:14', 'il_run.1:70'], family=fam + '.' + opn, backends=backends, safety=safety, optional=optional, witness=not (heavy and mode == 'ONLY_FOLD' and (optional or opk == 0)),
                               timeout=(60 if optional else 240) if tier == 'quick' else 900, mem_gb=8 if tier == 'quick' else 16,
                               bound={'operator': opn, 'left': TYPES[l], 'right': TYPES[r],
                                      'values': ('|x| < 2^%d' % defs_extra['SMALLOPS']) if defs_extra else 'all (symbolic), minus undefined behaviour'}))
@@ -112,7 +112,7 @@ def ptrcmp_instances(tier, seed, mode, fam):
     for opk in (7, 8, 9, 10, 11, 12):
         L.append(Inst('%s.%s.ptr.ptr' % (fam, OPS[opk]), 'h_expr.c', {'LT': 9, 'RT': 9, 'OPK': opk, 'WANT': 6, 'LCONV': 9, 'RCONV': 9, 'PTRMODE': None, mode: None},
                       units=['expr', 'eval', 'type', 'util'], overrides=['fatal', 'xmalloc', 'error'], native_units=NATIVE, unwind=4,
-                      unwindset=['il_run.0:24', 'il_is_stop.0:14'], family=fam + '.ptrcmp', backends=['sat'], timeout=120,
+                      unwindset=['il_run.0:24', 'il_is_stop.0:14', 'il_run.1:70'], family=fam + '.ptrcmp', backends=['sat'], timeout=120,
                       bound={'operator': OPS[opk], 'operands': 'pointers to int, symbolic addresses, freshly allocated pointer types'}))
     return L
 
@@ -123,7 +123,7 @@ def cast_instances(tier, seed, mode, fam, safety=False):
         for r in range(len(TYPES)):
             L.append(Inst('%s.cast.%s.to.%s' % (fam, TYPES[l], TYPES[r]), 'h_expr.c', {'LT': l, 'RT': r, 'CASTMODE': None, mode: None},
                           units=['expr', 'eval', 'type', 'util'], overrides=['fatal', 'xmalloc', 'error'], native_units=NATIVE, unwind=4,
-                          unwindset=['il_run.0:24', 'il_is_stop.0:14'], family=fam + '.cast', backends=['sat'], safety=safety,
+                          unwindset=['il_run.0:24', 'il_is_stop.0:14', 'il_run.1:70'], family=fam + '.cast', backends=['sat'], safety=safety,
                           timeout=120 if tier == 'quick' else 900, mem_gb=8 if tier == 'quick' else 16,
                           bound={'conversion': '%s -> %s' % (TYPES[l], TYPES[r]), 'values': 'all representable (symbolic)'}))
     return L
